@@ -5,7 +5,9 @@ Theorems about `Model/Listen.lean` (Speaker.listen / _bisect / Listener.check / 
 interleaving of `iter`), for an ARBITRARY watched quantity `f : Int → Int`, arbitrary guards and
 labels, arbitrary listener lists and arbitrary sample sequences (dates are integer µs), and about
 the listener classes of `Model/ListenKinds.lean`, whose watched quantity / guard / label are
-re-translated from beyond/propagators/listeners.py on every run (`Generated/ListenSrc.lean`).
+re-translated from beyond/propagators/listeners.py on every run (`Generated/ListenSrc.lean`); about
+`TopocentricFrame.visibility` (listeners with and without a frame of their own), `events_iterator` / `find_event`;
+and, over ℝ, about `LightListener.__call__` as translated from the source by py2lean (`Generated/LightSrcR.lean`).
 -/
 import BeyondVerif.Lemmas.Listen
 import BeyondVerif.Model.ListenKinds
